@@ -79,6 +79,21 @@ pub fn run_c12(tier: Tier) -> ! {
             }
         }
     }
+    // high addresses: bit-set word boundary 63/64, the top of the address space, long GAPs
+    {
+        let cases: Vec<(u8, u8, Vec<u8>)> = tier.pick(
+            vec![(64, 67, vec![66]), (63, 66, vec![0, 64]), (125, 126, vec![0]), (120, 126, vec![124]), (60, 126, vec![68]), (124, 126, vec![2])],
+            vec![(64, 67, vec![66]), (60, 126, vec![68]), (124, 126, vec![2]), (64, 67, vec![63]), (63, 66, vec![0, 64]), (125, 126, vec![0]), (120, 126, vec![124]), (0, 126, vec![125]), (64, 67, vec![]), (65, 67, vec![63, 64]), (124, 126, vec![0, 125]), (62, 126, vec![64, 100]), (100, 126, vec![])],
+        );
+        for (ts, hsa, members0) in cases {
+            for g in tier.pick(vec![1u8], vec![1, 2]) {
+                let gap_len = hsa as u32;
+                let max_visits = if hsa > 100 { 2 * (g as u32) + gap_len + 20 } else { 2 * (g as u32 + 8) + 6 };
+                let cfg = RCfg { ts, hsa, gap_factor: g, slot_bits: 100, ttr: None, period_div: 4, members0: members0.clone(), scripts: vec![], multi: false, mon: RMon::C12, max_visits, join_budget: 1 };
+                cfgs.push((format!("high TS{ts} HSA{hsa} G{g} members{members0:?}"), cfg, if hsa > 100 { 300 } else { 60 }, tier.pick(60.0, 3000.0), tier.pick(30_000, 400_000)));
+            }
+        }
+    }
     if tier == Tier::Thorough {
         for ts in [0u8, 62, 125] {
             let cfg = RCfg { ts, hsa: 126, gap_factor: 1, slot_bits: 100, ttr: None, period_div: 4, members0: vec![], scripts: vec![], multi: false, mon: RMon::C12, max_visits: 140, join_budget: 1 };
@@ -122,6 +137,31 @@ pub fn run_c12(tier: Tier) -> ! {
                 // the same alphabet from the situation "in the ring" (admitted through a GAP poll, token received)
                 let cfg = W2Cfg { ts, hsa: 7, gap_factor: 1, baud: 1, slot_bits: 100, ttr: Some(300), period_div: div, alphabet: alphabet.clone(), prefix: crate::props::w2props::prefix_for(2, ts, &ring), mon: W2Mon::C12R, apps: 0 };
                 w2cfgs.push((format!("replies in-ring TS{ts} P=Tsl/{div}"), cfg, tier.pick(5usize, 7), tier.pick(120.0, 6000.0), tier.pick(600_000u64, 5_000_000)));
+            }
+        }
+    }
+    // (3) function-code sweep: every one of the 256 function-code bytes in a telegram addressed to the
+    // station (without data and SAPs, and with both), from its predecessor and from a stranger, to the
+    // listening station and to the ring member, singly and in pairs. Only the FDL status request is
+    // answered "and no others" — in particular not responses whose status nibble happens to equal the
+    // request code 9 (found by a seeded change).
+    for (ts, ring) in tier.pick(vec![(3u8, vec![1u8, 5])], vec![(3u8, vec![1u8, 5]), (0, vec![2, 5])]) {
+        let ps = ring.iter().rev().find(|a| **a < ts).copied().unwrap_or(*ring.last().unwrap());
+        let stranger = (0..7u8).find(|a| *a != ts && !ring.contains(a)).unwrap();
+        for (k, from) in [ps, stranger].into_iter().enumerate() {
+            // the waits give the station the time to answer (wrongly) before the next telegram
+            let mut alphabet = vec![Sym::Wait(WaitLen::HalfSlot), Sym::Wait(WaitLen::SlotPlus)];
+            for fc in 0..=255u8 {
+                alphabet.push(Sym::Tel(rc::RFrame::Data { da: ts, sa: from, dsap: None, ssap: None, fc, du: vec![] }, Gap::G33));
+                alphabet.push(Sym::Tel(rc::RFrame::Data { da: ts, sa: from, dsap: Some(60), ssap: Some(62), fc, du: vec![1, 2] }, Gap::G33));
+            }
+            for in_ring in [false, true] {
+                if tier == Tier::Quick && k == 1 && in_ring {
+                    continue;
+                }
+                let prefix = if in_ring { crate::props::w2props::prefix_for(2, ts, &ring) } else { vec![] };
+                let cfg = W2Cfg { ts, hsa: 7, gap_factor: 1, baud: 1, slot_bits: 100, ttr: Some(300), period_div: 8, alphabet: alphabet.clone(), prefix, mon: W2Mon::C12R, apps: 0 };
+                w2cfgs.push((format!("fc sweep TS{ts} from #{from} in_ring={in_ring}"), cfg, tier.pick(2usize, 3), tier.pick(120.0, 6000.0), tier.pick(600_000u64, 5_000_000)));
             }
         }
     }
